@@ -1,0 +1,131 @@
+//go:build verif
+
+package mcp
+
+import (
+	"context"
+	"io"
+	"reflect"
+	"time"
+
+	"github.com/getkin/kin-openapi/openapi3"
+
+	"trpc.group/trpc-go/trpc-mcp-go/internal/retry"
+	"trpc.group/trpc-go/trpc-mcp-go/internal/schema"
+)
+
+// Verification hooks (build tag "verif"). Read-only observers and thin re-exports used by the
+// runtime-monitoring harness; none of them changes library behaviour.
+
+// VerifServeStdio runs the real stdio server transport loop over caller-supplied streams
+// (StartWithContext is hard-wired to os.Stdin / os.Stdout).
+func VerifServeStdio(ctx context.Context, s *StdioServer, in io.Reader, out io.Writer) error {
+	transport := newStdioTransport(s.internal, withStdioErrorLogger(s.logger), withStdioContextFunc(s.contextFunc))
+	ctx, cancel := context.WithCancel(ctx)
+	defer cancel()
+	return transport.listen(ctx, in, out)
+}
+
+// VerifPendingServerRequests returns the number of server-issued requests still awaiting an answer.
+func VerifPendingServerRequests(server interface{}) int {
+	switch s := server.(type) {
+	case *Server:
+		rm := s.httpHandler.responseManager
+		rm.mutex.RLock()
+		defer rm.mutex.RUnlock()
+		return len(rm.pendingRequests)
+	case *SSEServer:
+		s.responsesMu.RLock()
+		defer s.responsesMu.RUnlock()
+		return len(s.responses)
+	case *StdioServer:
+		s.responsesMu.RLock()
+		defer s.responsesMu.RUnlock()
+		return len(s.responses)
+	}
+	return -1
+}
+
+// VerifPendingClientRequests returns the number of entries in a client's pending-request table
+// (-1 when the client kind keeps no table).
+func VerifPendingClientRequests(client interface{}) int {
+	switch c := client.(type) {
+	case *Client:
+		if t, ok := c.transport.(*sseClientTransport); ok {
+			t.responsesMu.RLock()
+			defer t.responsesMu.RUnlock()
+			return len(t.responses)
+		}
+		return -1
+	case *StdioClient:
+		c.transport.pendingMutex.RLock()
+		defer c.transport.pendingMutex.RUnlock()
+		return len(c.transport.pendingRequests)
+	}
+	return -1
+}
+
+// VerifListeningStreams returns the number of registered GET SSE listening streams.
+func VerifListeningStreams(s *Server) int {
+	s.httpHandler.getSSEConnectionsLock.RLock()
+	defer s.httpHandler.getSSEConnectionsLock.RUnlock()
+	return len(s.httpHandler.getSSEConnections)
+}
+
+// VerifSetRequestID sets a client's request-id counter so that the next request uses n+1.
+func VerifSetRequestID(client interface{}, n int64) {
+	switch c := client.(type) {
+	case *Client:
+		c.requestID.Store(n)
+	case *StdioClient:
+		c.requestID.Store(n)
+	}
+}
+
+// VerifRetryConfig mirrors internal/retry.Config.
+type VerifRetryConfig struct {
+	MaxRetries     int
+	InitialBackoff time.Duration
+	BackoffFactor  float64
+	MaxBackoff     time.Duration
+}
+
+// VerifRetryValidate re-exports retry.Config.Validate.
+func VerifRetryValidate(c VerifRetryConfig) VerifRetryConfig {
+	v := retry.Config{MaxRetries: c.MaxRetries, InitialBackoff: c.InitialBackoff, BackoffFactor: c.BackoffFactor, MaxBackoff: c.MaxBackoff}.Validate()
+	return VerifRetryConfig{MaxRetries: v.MaxRetries, InitialBackoff: v.InitialBackoff, BackoffFactor: v.BackoffFactor, MaxBackoff: v.MaxBackoff}
+}
+
+// VerifRetryExecute re-exports retry.Execute; a nil config means "no retry configured".
+// When validate is false the configuration is passed through unclamped.
+func VerifRetryExecute(ctx context.Context, op func() error, c *VerifRetryConfig, name string) error {
+	if c == nil {
+		return retry.Execute(ctx, op, nil, name)
+	}
+	cfg := retry.Config{MaxRetries: c.MaxRetries, InitialBackoff: c.InitialBackoff, BackoffFactor: c.BackoffFactor, MaxBackoff: c.MaxBackoff}
+	return retry.Execute(ctx, op, &cfg, name)
+}
+
+// VerifIsRetryableError re-exports retry.IsRetryableError.
+func VerifIsRetryableError(err error) bool { return retry.IsRetryableError(err) }
+
+// VerifSetBackoffObserver installs the observer called with every computed back-off; its return
+// value replaces the real wait (virtual time).
+func VerifSetBackoffObserver(fn func(attempt int, d time.Duration) time.Duration) {
+	retry.VerifSetBackoffObserver(fn)
+}
+
+// VerifSchemaForType runs the schema generators for a run-time type.
+// style: "default", "inline", "defs", "nested".
+func VerifSchemaForType(t reflect.Type, style string) *openapi3.Schema {
+	opts := schema.DefaultConverterOptions
+	switch style {
+	case "inline":
+		WithInlineStyle()(&opts)
+	case "defs":
+		WithRefStyle()(&opts)
+	case "nested":
+		WithNestedRefStyle()(&opts)
+	}
+	return schema.VerifConvertType(t, opts)
+}
